@@ -6,5 +6,5 @@ T=$(mktemp -d /tmp/mutXXXX)
 cp -r /repo/stackscope "$T/stackscope"
 sed -i "$2" "$T/stackscope/$1"
 if diff -q /repo/stackscope/$1 "$T/stackscope/$1" >/dev/null; then echo "MUTATION DID NOT APPLY"; fi
-PYVC_REPO=$T python3-vt /tmp/t1.py "$3" "$4" 2>&1 | grep -v "^    OK" | grep -v WARNING | cut -c1-260
+PYVC_REPO=$T python3-vt /verif/tools/dev_run_units.py "$3" "$4" 2>&1 | grep -v "^    OK" | grep -v WARNING | cut -c1-260
 rm -rf "$T"
